@@ -278,6 +278,16 @@ theorem C16_group_wait (ops : List Op) :
   intro g q fuel hw hb
   exact below_zero fuel t h g q hb (by simpa [waitChildrenReturns] using hw)
 
+/-- **User subscribers** (`Counter.Subscribe` on a pool's `PendingTasksCounter` or a group's `PendingChildrenCounter`,
+in any number, attached and removed at any time): over any sequence `vs` of successive values of the counter after
+the subscription at value `v0`, the stream of reported `(old, new)` pairs satisfies the subscriber monitor
+`streamOk`: it starts at `v0`, every `old` is the previous `new`, no pair is empty, and it ends at the current
+value — the fold of the reported deltas is the counter.  (`observe`, used by the driver for the differential run,
+applies exactly this `recStep` to the value of the subscriber's node before and after each operation.) -/
+theorem C16_subscriber_stream (v0 : Nat) (vs : List Nat) :
+    streamOk v0 ((v0 :: vs).getLast (by simp)) (recRun v0 vs []) = true :=
+  streamOk_recRun v0 v0 vs [] (by simp [streamOk])
+
 /-- Non-vacuity: root group 0 with pool 1 and sub-group 2 holding pools 3 and 4; tasks come and go. -/
 theorem C16_group_example :
     let t := run [] [.newGroup none, .newPool 0, .newGroup (some 0), .newPool 2, .newPool 2,
